@@ -1,8 +1,21 @@
 /-
 C01 — property theorems (every `theorem` in this module is a proof obligation; `bin/check C01` audits each one's
 axioms). Helper lemmas live in Kap/Proofs/C01*.lean.
+
+Statement (properties.jsonl): for every alert ID, the level attached to each data point is the highest severity
+whose condition holds (held back by a reset condition when one is configured), and an event reaches the alert's
+handlers exactly when that level is not OK or it has just returned to OK from a non-OK level; with
+state-changes-only, only when the level differs from the previous one (or the configured interval has elapsed), and
+with no-recoveries the OK event is withheld. Each event carries the level, the time of the triggering point and a
+duration equal to the time since the ID last left OK.
+
+The theorems are about the model `Kap.Model.C01` (a transcription of alert.go whose guards and constants are
+REGENERATED from the Go source into `Kap.C01.Gen` on every run, so a changed guard is re-proved or breaks here) and the
+history spec `Kap.Spec.C01`. They hold for EVERY flap-detection function `flap` (the float arithmetic of
+`percentChange` is a parameter, tied to the code by the correspondence run only): flap detection enters the spec as
+the per-point input flag "the ID is flapping here".
 -/
-import Kap.Proofs.C01
+import Kap.Proofs.C01Flap
 namespace Kap.Props.C01
 open Kap.C01
 
@@ -12,8 +25,11 @@ open Kap.C01
 theorem level_order_recognised :
     Gen.levelNames = some ["OK", "Info", "Warning", "Critical", "maxLevel"] := by decide
 
-/-- The ring always has at least two slots: default 21, and `History < 2 ⇒ 2` (this is what
-`ring_tracks_history` needs). -/
+/-- `BufferedBatch` returns before touching anything when the batch has no points. -/
+theorem batch_empty_guard_recognised : Gen.batchEmptyReturns = true := by decide
+
+/-- The ring always has at least two slots: default 21, and `History < 2 ⇒ 2`. This is what makes "the slot before
+idx" a different slot from idx (`ring_tracks_history`; `history_one_breaks_previous_level` shows it is needed). -/
 theorem history_at_least_two (h : Option Int) : 2 ≤ effHistory h := by
   unfold effHistory
   simp only [Gen.defaultHistory, Gen.historyClamp]
@@ -28,7 +44,8 @@ theorem history_at_least_two (h : Option Int) : 2 ≤ effHistory h := by
 
 /-- **The level attached to a point is the highest severity whose condition holds, held back by the reset condition
 of the current level when one is configured** — for every configuration, every outcome of the predicates
-(including evaluation errors) and every current level. -/
+(including evaluation errors) and every current level. (`findFirstMatchLevel` up, reset gate, `findFirstMatchLevel`
+down = `specLevel`.) -/
 theorem determineLevel_spec (c : Cfg) (p : Pt) (cur : Nat) :
     determineLevel c p cur = specLevel c p cur :=
   determineLevel_eq_specLevel c p cur
@@ -49,8 +66,17 @@ theorem determineLevel_no_resets (c : Cfg) (p : Pt) (cur : Nat)
     | _ + 4 => rfl
   simp [specLevel, this]
 
+/-- The level never leaves `OK … Critical`. -/
+theorem determineLevel_in_range (c : Cfg) (p : Pt) (cur : Nat) (h : cur ≤ 3) : determineLevel c p cur ≤ 3 := by
+  rw [determineLevel_eq_specLevel]
+  unfold specLevel
+  have := highestHolding_le c p
+  simp only []
+  split <;> omega
+
 /-- The documented example (pipeline/alert.go:100-127): values 61 73 64 85 62 56 47 give
-INFO WARNING WARNING CRITICAL INFO INFO OK. (A test of the model, also run on the real code: corpus/C01/doc-example.ops.) -/
+INFO WARNING WARNING CRITICAL INFO INFO OK. (A test of the model, labelled as such; the same case runs on the real
+code with the documented lambdas: corpus/C01/doc-example.ops.) -/
 theorem documented_example :
     let c : Cfg := { info := true, warn := true, crit := true, infoReset := true, warnReset := true, critReset := true }
     let pt (v : Int) : Pt := { t := 0, i := some (decide (v > 60)), ri := some (decide (v < 50)), w := some (decide (v > 70)),
@@ -59,5 +85,219 @@ theorem documented_example :
         let l := determineLevel c (pt v) acc.1
         (l, acc.2 ++ [l])) (0, [])).2 = [1, 2, 2, 3, 1, 1, 0] := by
   decide
+
+/-! ### The ring -/
+
+/-- **The ring tracks the history** (needs `History ≥ 2`): after `addEvent(t, l)` the current level is `l`, the slot
+`triggered` looks at (`idx-1`, wrapping) holds the level the ID had before, and `changed` says whether they differ;
+`firstTriggered` moves exactly when the ID leaves OK; `lastTriggered` is untouched; `expired` is the
+state-changes-only interval test against `lastTriggered`. For every ring position, including the wrap. -/
+theorem ring_tracks_history (c : Cfg) (flap : FlapFn) (s : St) (t : Int) (l : Nat) (h : RingOK c s) :
+    let s' := addEvent c flap s t l
+    RingOK c s' ∧ currentLevel s' = l ∧ prevLevel s' = currentLevel s ∧ s'.changed = (currentLevel s != l) ∧
+    s'.firstTriggered = (if (currentLevel s != l && currentLevel s == 0) then some t else s.firstTriggered) ∧
+    s'.lastTriggered = s.lastTriggered ∧
+    s'.expired = (!(currentLevel s != l) && c.scoDur != 0 && decide (subTime t s.lastTriggered ≥ c.scoDur)) :=
+  let F := addEvent_facts c flap s t l h
+  ⟨F.ring, F.cur, F.prev, F.changed, F.first, F.last, F.expired⟩
+
+/-- Why the clamp `History < 2 ⇒ 2` is load-bearing: with a one-slot ring "the slot before idx" IS the current
+slot, so `triggered` would take the new level for the previous one. -/
+theorem history_one_breaks_previous_level :
+    let c : Cfg := { warn := true, history := 1 }
+    let s' := addEvent c (fun f _ _ => f) (newAlertState c) 10 2
+    currentLevel (newAlertState c) = 0 ∧ prevLevel s' = 2 := by
+  decide
+
+/-! ### Emission, payload, duration: one step -/
+
+/-- **Stream form, one point** (any flap detector): under the simulation relation, `alertState.Point` delivers
+exactly the event the property statement asks for — an event iff the level is not OK or the ID just returned to OK
+(`due`), under state-changes-only only on a level change or when the interval since the last alert has elapsed, not
+while the ID is flapping, the OK event withheld under no-recoveries; carrying the point's level, the point's time
+and `time − (time the ID last left OK)` — and the relation is re-established. -/
+theorem emit_iff (c : Cfg) (hc : c.WF) (flap : FlapFn) (s : St) (tr : Track) (p : Pt) (h : Rel c s tr) :
+    let r := pointStep c flap s p
+    let fl := c.useFlap && r.1.flapping
+    Rel c r.1 (specPoint c tr p fl).1 ∧ r.2 = (specPoint c tr p fl).2 :=
+  point_refines c hc flap s tr p h
+
+/-- **Batch form, one batch** incl. `all()`: every point is levelled against the SAME current level; the batch level
+is the highest (`all()`: lowest) point level; the event time is the first highest point's time (batch time for
+`all()` / OK); same emission rule, except that flap detection lets the recovery through (as the comment in
+`BufferedBatch` documents). -/
+theorem emit_iff_batch (c : Cfg) (hc : c.WF) (flap : FlapFn) (s : St) (tr : Track) (b : Batch) (h : Rel c s tr) :
+    let r := batchStep c flap s b
+    let fl := c.useFlap && r.1.flapping
+    Rel c r.1 (specBatch c tr b fl).1 ∧ r.2 = (specBatch c tr b fl).2 :=
+  batch_refines c hc flap s tr b h
+
+/-- **Payload of a stream event**: the level of the triggering point, its time, and a duration equal to the time since
+the ID last left OK (`leftOK` of the history spec: the time of the last point that took the ID from OK to non-OK). -/
+theorem event_payload (c : Cfg) (hc : c.WF) (flap : FlapFn) (s : St) (tr : Track) (p : Pt) (h : Rel c s tr)
+    (e : Ev) (he : (pointStep c flap s p).2 = some e) :
+    e.level = specLevel c p tr.level ∧ e.time = p.t ∧
+    ∃ since, (if tr.level == 0 && e.level != 0 then some p.t else tr.leftOK) = some since ∧ e.dur = p.t - since := by
+  obtain ⟨hrel, hev⟩ := point_refines c hc flap s tr p h
+  rw [he] at hev
+  simp only [specPoint, advance] at hev hrel
+  split at hev
+  · cases hev
+    refine ⟨rfl, rfl, ?_⟩
+    rename_i hd
+    have hleft := hrel.left
+    simp only [] at hleft
+    -- an event is due only when the level is not OK or the ID was not OK: in both cases `leftOK` is known
+    have hdue : specLevel c p tr.level ≠ 0 ∨ tr.level ≠ 0 := by
+      simp only [due, Bool.and_eq_true, Bool.or_eq_true, bne_iff_ne] at hd
+      exact hd.1.1.1
+    have hs : (if (tr.level == 0 && specLevel c p tr.level != 0) = true then some p.t else tr.leftOK).isSome = true := by
+      rcases hdue with h1 | h1
+      · exact hleft h1
+      · have := h.left h1
+        simp [h1, this]
+    cases hq : (if (tr.level == 0 && specLevel c p tr.level != 0) = true then some p.t else tr.leftOK) with
+    | none => rw [hq] at hs; cases hs
+    | some since => exact ⟨since, rfl, by simp⟩
+  · cases hev
+
+/-! ### Whole histories -/
+
+/-- **Stream form, every history** (all point sequences, all configurations in `Cfg.WF`, every flap detector): the
+events the handlers receive for an ID are exactly the events of the history spec, in order, with level, time and
+duration. -/
+theorem stream_events_exact (c : Cfg) (hc : c.WF) (flap : FlapFn) (ps : List Pt) :
+    (runStream c flap (newAlertState c) ps).2 = specStream c {} (ps.zip (streamFlags c flap (newAlertState c) ps)) :=
+  stream_run_refines c hc flap ps _ _ (rel_init c hc)
+
+/-- **Batch form, every history.** -/
+theorem batch_events_exact (c : Cfg) (hc : c.WF) (flap : FlapFn) (bs : List Batch) :
+    (runBatches c flap (newAlertState c) bs).2 = specBatches c {} (bs.zip (batchFlags c flap (newAlertState c) bs)) :=
+  batch_run_refines c hc flap bs _ _ (rel_init c hc)
+
+/-- Flap detection off (the default): the spec without any flapping input. -/
+theorem stream_events_exact_no_flapping (c : Cfg) (hc : c.WF) (flap : FlapFn) (hf : c.useFlap = false) (ps : List Pt) :
+    (runStream c flap (newAlertState c) ps).2 = specStream c {} (ps.map (fun p => (p, false))) := by
+  rw [stream_events_exact c hc, streamFlags_off c flap hf, List.zip_map_right]
+  congr 1
+  induction ps with
+  | nil => rfl
+  | cons p ps ih => simp [ih]
+
+theorem batch_events_exact_no_flapping (c : Cfg) (hc : c.WF) (flap : FlapFn) (hf : c.useFlap = false) (bs : List Batch) :
+    (runBatches c flap (newAlertState c) bs).2 = specBatches c {} (bs.map (fun b => (b, false))) := by
+  rw [batch_events_exact c hc, batchFlags_off c flap hf, List.zip_map_right]
+  congr 1
+  induction bs with
+  | nil => rfl
+  | cons b bs ih => simp [ih]
+
+/-- **Flap detection only suppresses** (no state-changes-only interval configured): whatever the detector, the events
+delivered with `.flapping()` are a sub-sequence — same level, time AND duration — of those delivered without it. -/
+theorem flapping_only_suppresses (c : Cfg) (hc : c.WF) (h0 : c.scoDur = 0) (flap : FlapFn) (ps : List Pt) :
+    ((runStream c flap (newAlertState c) ps).2).Sublist
+      ((runStream { c with useFlap := false } flap (newAlertState c) ps).2) := by
+  have hc' : Cfg.WF { c with useFlap := false } := ⟨hc.two, hc.dur⟩
+  have e1 := stream_events_exact c hc flap ps
+  have e2 := stream_events_exact_no_flapping { c with useFlap := false } hc' flap rfl ps
+  have hn : newAlertState { c with useFlap := false } = newAlertState c := rfl
+  rw [hn, specStream_useFlap] at e2
+  rw [e1, e2]
+  exact specStream_sub c h0 ps _ _ _ ⟨rfl, rfl⟩
+
+theorem flapping_only_suppresses_batch (c : Cfg) (hc : c.WF) (h0 : c.scoDur = 0) (flap : FlapFn) (bs : List Batch) :
+    ((runBatches c flap (newAlertState c) bs).2).Sublist
+      ((runBatches { c with useFlap := false } flap (newAlertState c) bs).2) := by
+  have hc' : Cfg.WF { c with useFlap := false } := ⟨hc.two, hc.dur⟩
+  have e1 := batch_events_exact c hc flap bs
+  have e2 := batch_events_exact_no_flapping { c with useFlap := false } hc' flap rfl bs
+  have hn : newAlertState { c with useFlap := false } = newAlertState c := rfl
+  rw [hn, specBatches_useFlap] at e2
+  rw [e1, e2]
+  exact specBatches_sub c h0 bs _ _ _ ⟨rfl, rfl⟩
+
+/-- With an interval (`stateChangesOnly(d)`) "only suppresses" is FALSE, by design of the interval: a suppressed event
+does not restart the interval, so the flapping run can re-send earlier than the run without flap detection. Witness:
+interval 10, WARNING@0, CRITICAL@1, WARNING@2 (suppressed: detector says flapping), WARNING@11 — sent with flapping
+(11−1 ≥ 10), not sent without (11−2 < 10). -/
+theorem flapping_with_interval_can_add_an_event :
+    let c : Cfg := { warn := true, crit := true, sco := true, scoDur := 10, useFlap := true, history := 2 }
+    let flap : FlapFn := fun _ ring idx => ring.getD idx 0 == 2 && ring.getD (1 - idx) 0 == 3   -- "flapping" on CRITICAL→WARNING
+    let ps : List Pt := [{ t := 0, w := some true }, { t := 1, w := some true, c := some true }, { t := 2, w := some true },
+                         { t := 11, w := some true }]
+    ¬ ((runStream c flap (newAlertState c) ps).2).Sublist ((runStream { c with useFlap := false } flap (newAlertState c) ps).2) := by
+  decide
+
+/-! ### The defect repaired by the `fix:` commit of findings/C01.txt -/
+
+/-- Full-strength duration claim for the code AS IT WAS (`pointStepOld`: `addEvent` without the leftOK bookkeeping). -/
+def old_duration_since_left_ok_stmt : Prop :=
+  ∀ (c : Cfg) (flap : FlapFn) (s : St) (tr : Track) (p : Pt), c.WF → Rel c s tr →
+    ∀ e, (pointStepOld c flap s p).2 = some e →
+      ∃ since, (if tr.level == 0 && e.level != 0 then some p.t else tr.leftOK) = some since ∧ e.dur = p.t - since
+
+/-- It was false: flap detection suppresses the OK→WARNING event at t=10 (so `triggered` is not reached), the next
+WARNING at t=20 is delivered with duration `maxDuration` (firstTriggered still the zero time) instead of 10.
+Replayed on the real code by corpus/C01/flapping-duration.ops. -/
+theorem old_duration_wrong_under_flapping :
+    let c : Cfg := { warn := true, useFlap := true, history := 2 }
+    let flap : FlapFn := fun _ ring idx => ring.getD idx 0 != ring.getD (1 - idx) 0   -- any change = flapping (history 2, high < 0.8)
+    let s1 := (pointStepOld c flap (newAlertState c) { t := 10, w := some true }).1
+    (pointStepOld c flap (newAlertState c) { t := 10, w := some true }).2 = none ∧
+    (pointStepOld c flap s1 { t := 20, w := some true }).2 = some { level := 2, time := 20, dur := maxDuration } := by
+  decide
+
+/-- The repaired code on the same input: duration 10. -/
+theorem fixed_duration_under_flapping :
+    let c : Cfg := { warn := true, useFlap := true, history := 2 }
+    let flap : FlapFn := fun _ ring idx => ring.getD idx 0 != ring.getD (1 - idx) 0
+    (runStream c flap (newAlertState c) [{ t := 10, w := some true }, { t := 20, w := some true }]).2
+      = [{ level := 2, time := 20, dur := 10 }] := by
+  decide
+
+/-! ### Restore (task restart): what is proved, and what is not the property -/
+
+/-- After `restoreEventState` with a stored non-OK event `(level, time)` the state machine is in the relation with the
+track "at `level`, left OK at the stored event's time, last alert at the stored event's time": level and emission
+continue correctly from there (by `emit_iff`), and durations are measured from the stored event's TIME. -/
+theorem restore_resumes (c : Cfg) (hc : c.WF) (flap : FlapFn) (t : Int) (level : Nat) (stored : Int) (hl : level ≠ 0) :
+    Rel c (restoreEventState c flap t level stored) { level := level, leftOK := some stored, lastAlert := some stored } :=
+  restore_rel c hc flap t level stored hl
+
+/-- Full-strength claim across a restart (NOT proved, and false of the code): the duration after a restore continues
+from the time the ID really left OK (`stored − storedDuration`). The code restarts it at the stored event's time
+(`restore_resumes`); witness `restore_restarts_duration`. Restart behaviour is the subject of C08; the harness of C01
+does not restart tasks. -/
+def restore_keeps_duration_stmt : Prop :=
+  ∀ (c : Cfg) (flap : FlapFn) (t : Int) (level : Nat) (stored storedDuration : Int), c.WF → level ≠ 0 →
+    Rel c (restoreEventState c flap t level stored)
+      { level := level, leftOK := some (stored - storedDuration), lastAlert := some stored }
+
+theorem restore_restarts_duration :
+    let c : Cfg := { warn := true, history := 2 }
+    -- WARNING since t=0, last event at t=20 (duration 20); restart; next WARNING at t=30 reports 10, not 30
+    (pointStep c (fun f _ _ => f) (restoreEventState c (fun f _ _ => f) 30 2 20) { t := 30, w := some true }).2
+      = some { level := 2, time := 30, dur := 10 } := by
+  decide
+
+/-! ### Non-vacuity: the hypotheses are met, and the theorems say something on a concrete non-trivial history -/
+
+example : Cfg.WF { warn := true, crit := true, warnReset := true, sco := true, scoDur := 5, noRec := true, history := 2 } :=
+  ⟨by decide, by decide⟩
+
+example : ∀ h : Option Int, Cfg.WF { history := effHistory h } :=
+  fun h => ⟨history_at_least_two h, by decide⟩
+
+/-- a history with a level change, a held reset, an interval re-send, a suppressed repeat and a withheld recovery -/
+example :
+    let c : Cfg := { warn := true, crit := true, critReset := true, sco := true, scoDur := 5, noRec := true, history := 2 }
+    (runStream c (fun f _ _ => f) (newAlertState c)
+      [{ t := 0, w := some true }, { t := 1, w := some true, c := some true }, { t := 2, w := some true, rc := some false },
+       { t := 6, w := some true, rc := some false }, { t := 7, w := some true, rc := some true }, { t := 9 }]).2
+      = [{ level := 2, time := 0, dur := 0 }, { level := 3, time := 1, dur := 1 }, { level := 3, time := 6, dur := 6 },
+         { level := 2, time := 7, dur := 7 }] := by
+  decide
+
+example : Rel { history := 2 } (newAlertState { history := 2 }) {} := rel_init _ ⟨by decide, by decide⟩
 
 end Kap.Props.C01
